@@ -306,7 +306,13 @@ func (g *G) quiesce() {
 	vm := g.vm
 	g.block("quiesce", func() bool {
 		for _, h := range vm.gs {
-			if h != g && h.state != gDone && h.enabled() {
+			if h == g || h.state == gDone {
+				continue
+			}
+			if h.state == gBlocked && h.waitDesc == "quiesce" {
+				continue // another goroutine waiting for quiescence does not keep things busy
+			}
+			if h.enabled() {
 				return false
 			}
 		}
